@@ -196,10 +196,21 @@ def negative_enum_value(sel):
 
 # ------------------------------------------------------------------------------------------------ C16 (i)
 
-def include_placement(in_c, in_e, in_s, n, em):
+INC_NAMES = ['inc', 'Inner', 'E', 'N']     # a file is often named after the type / constant it holds
+
+
+def include_placement(in_c, in_e, in_s, n, em, name_sel=0):
     """declarations C (const), E (enum), S (struct Inner) live in an included file or in the main file (dependency-
-    respecting), T (struct Outer) always in the main file: layouts equal those of the single flat file"""
+    respecting), T (struct Outer) always in the main file: layouts equal those of the single flat file.
+    name_sel: base name of the included file - neutral, or equal to a name the file defines (only then: a file named
+    after something defined elsewhere would shadow it, which is not a split of the flat schema)"""
     from prophyc import model
+    iname = INC_NAMES[0]
+    for k, nm in enumerate(INC_NAMES):
+        if name_sel == k:
+            iname = nm
+    if (iname == 'Inner' and not in_s) or (iname == 'E' and not in_e) or (iname == 'N' and not in_c):
+        return True
     if in_s and not (in_c and in_e):
         return True                     # Inner uses N and E_M: it can only be included together with them
 
@@ -218,7 +229,7 @@ def include_placement(in_c, in_e, in_s, n, em):
     d = decls()
     inc = [d[k] for k, f in (('C', in_c), ('E', in_e), ('S', in_s)) if f]
     inc, _ = model.evaluate_model(inc)                     # what processing the included file yields
-    main = [model.Include('inc', inc), model.Include('inc', inc)] + [d[k] for k, f in (('C', in_c), ('E', in_e), ('S', in_s)) if not f] + [d['T']]
+    main = [model.Include(iname, inc), model.Include(iname, inc)] + [d[k] for k, f in (('C', in_c), ('E', in_e), ('S', in_s)) if not f] + [d['T']]
     nodes, consts = model.evaluate_model(main)
     everything = list(inc) + nodes
     got = (_layout(everything, 'Inner'), _layout(everything, 'Outer'), consts.get('N'), consts.get('E_M'))
